@@ -33,13 +33,20 @@ COVERAGE TABLE (property clause / quantifier dimension -> where it is explored -
                                 SINGLE POINT: V3 only in the all-positions vector; no NaN / uncomparable map keys.
   variadic arguments         -> none / one nil-or-zero element / three elements; absent vs empty vs nil slice spelling;
                                 element kinds string int ptr any (+generic V); registration by spread from one reused,
-                                overwritten buffer.  ABSENT: a slice passed as ONE element of ...interface{}.
+                                overwritten buffer; for ...interface{} / ...any (+generic V) SLICE LOOK-ALIKES as ONE element
+                                (a []interface{} value {V1,V2} / empty / {nil} / nil, alone and next to a scalar) under every
+                                setup style, matched by Anything, by value in the mock's form and in the other mode's form
+                                (Mode "look"; quick: a seeded half of the transitions).  ABSENT: look-alikes at fixed
+                                positions / as results, slices of OTHER element types inside ...interface{}.
   setup styles               -> Return, raw Call.Return, Run+Return, Run only, nothing, RunAndReturn, Return(whole
                                 function), Return(slice-form function; contract lenient), Return(per-result providers),
                                 Return(value, providers...) mixed.  ABSENT: re-configuring one expectation (Return twice),
                                 Maybe/Unset/NotBefore/After/WaitUntil/Panic, matchers other than Anything/equal value.
   unroll-variadic settings   -> true / false / unset at interface level, alone in a file and interleaved in shared files in both
-                                name orders.  ABSENT: the setting inherited from package / top level (C08).
+                                name orders; a multi-package CONFIG WORLD (TestifyMockMC CfgPkgs: recursive parent with true,
+                                explicitly listed sub-package, unrelated sibling without the setting; interface-level overrides),
+                                every variadic class mocked where the effective setting is its own.  SINGLE POINT: that one
+                                package tree; top level unset (the rest of the inheritance lattice is C08's).
   histories                  -> single: 1 full-alphabet expectation x <= 2 calls; pair: 2 plain expectations (Once) x <= 3
                                 calls, registration after calls, exhaustion then the next expectation, 2 methods interleaved;
                                 multi: other instances of the mock type on the same TestingT (created before / after, clean /
@@ -214,6 +221,55 @@ def shared_conf(classes, layouts):
                 conf["template-data"] = {"unroll-variadic": byid[cid]["unroll"] == "true"}
             ifs[iname] = {"config": conf}
     return {"template": "testify", "formatter": "gofmt", "packages": {MOD + "/srcsh": {"interfaces": ifs}}}
+
+
+def config_world(ctx, w, alive):
+    """The configuration world of TestifyMockMC (CfgPkgs / CfgPlaces): ONE config file with several packages, the
+    unroll-variadic setting at package level / inherited through `recursive` / at interface level as TLC placed it.
+    Returns layouts {"C<pkg>": {class id: interface name}}; the mock of a class in a package must behave as the
+    class (TLA+: CfgEffective = the class's unroll)."""
+    pkgs = {p["name"]: p for p in getattr(ctx, "cfgpkgs", [])}
+    alive_ids = {c["id"]: c for c in alive}
+    places = [x for x in getattr(ctx, "cfgplaces", []) if x["class"] in alive_ids]
+    if not pkgs or not places:
+        return {}
+    for x in places:
+        if x["eff"] != alive_ids[x["class"]]["unroll"]:
+            raise MachineryError(f"configuration world: class {x['class']} placed where the effective setting is {x['eff']}")
+
+    def path(n):
+        return (path(pkgs[n]["parent"]) + "/" if pkgs[n]["parent"] else "cw/") + n
+    lays, conf_pk = {}, {}
+    for n, p in sorted(pkgs.items()):
+        mine = [x for x in places if x["pkg"] == n]
+        names = {x["class"]: "W_" + x["class"] for x in mine}
+        d = w / path(n)
+        d.mkdir(parents=True, exist_ok=True)
+        (d / "src.go").write_text(iface_src([alive_ids[x["class"]] for x in mine], names).replace("package src", "package " + n, 1))
+        pc = {}
+        if p["recursive"]:
+            pc["recursive"] = True
+        if p["td"] != "unset":
+            pc["template-data"] = {"unroll-variadic": p["td"] == "true"}
+        entry = {"config": pc} if pc else {}
+        ifs = {names[x["class"]]: {"config": {"template-data": {"unroll-variadic": x["itd"] == "true"}}} for x in mine if x["itd"] != "unset"}
+        if ifs:
+            entry["interfaces"] = ifs
+        conf_pk[MOD + "/" + path(n)] = entry
+        lays["C" + n] = names
+    conf = {"template": "testify", "formatter": "gofmt", "all": True, "dir": "mocks/shC{{.SrcPackageName}}", "pkgname": "shC{{.SrcPackageName}}",
+            "structname": "Mock{{.InterfaceName}}", "filename": "mocks.go", "packages": conf_pk}
+    (w / ".mockery.yml").write_text(json.dumps(conf))
+    ctx.cfgworld_conf = conf
+    res = ctx.run_mockery(w, timeout=300, trace=False)
+    if res.code != 0 or not all((w / "mocks" / ("sh" + lay) / "mocks.go").exists() for lay in lays):
+        ctx.violation({"kind": "config-world-mocks-not-generated"}, {"config": conf, "mockery": res.brief()})
+        return {}
+    code, out, err = ctx.go(w, "build", *[f"./mocks/sh{lay}" for lay in sorted(lays)], timeout=900)
+    if code != 0:
+        ctx.violation({"kind": "config-world-mocks-do-not-compile"}, {"config": conf, "compile_errors": err.splitlines()[:8]})
+        return {}
+    return lays
 
 
 def gen_adapter(c, layout="", iname=None):
@@ -400,6 +456,7 @@ def build_world(ctx, classes):
                               {"layout": layouts[lay], "compile_errors": errs,
                                "why": "each mock compiles in a file of its own; the shared output file does not"})
                 del layouts[lay]
+    layouts.update(config_world(ctx, w, alive))
     (w / "adapters").mkdir()
     for c in alive:
         (w / "adapters" / f"ad_{c['id']}.go").write_text(gen_adapter(c))
@@ -507,7 +564,8 @@ def random_history(rng, c, max_ops, max_exp):
         return [rng.choice([bias] * 3 + vals_of(k)) if bias in vals_of(k) else rng.choice(vals_of(k)) for k in c["pk"]]
 
     def rand_var():
-        return [rng.choice(["V1", "V1", "V2", "V0"]) for _ in range(rng.choice([0, 0, 1, 1, 2, 2, 3]))] if var else []
+        alpha = ["V1", "V1", "V2", "V0"] + (["W1", "WE", "WN", "W0"] if c["vk"] == "any" else [])     # + slice look-alikes
+        return [rng.choice(alpha) for _ in range(rng.choice([0, 0, 1, 1, 1, 2, 2, 3]))] if var else []
     while len(ops) < n:
         if rng.random() < 0.06:
             ops.append({"op": "usererrorf"})
@@ -723,7 +781,8 @@ def new_guard():
             "unmet_after_unexpected_call_failed_the_test": 0, "unmet_after_users_errorf": 0, "all_met_in_failed_test": 0,
             "untyped_nil_return_of_map_slice_func_chan_ptr": 0, "mixed_value_and_provider_return": 0, "nil_lookalike_returned": 0,
             "nil_lookalike_argument_seen_by_callback": 0, "other_instance_unmet_while_own_met": 0, "other_instance_clean_while_own_unmet": 0,
-            "other_instance_created_first": 0}
+            "other_instance_created_first": 0, "slice_lookalike_alone_seen_by_run_unrolled": 0, "slice_lookalike_alone_seen_by_run_rolled": 0,
+            "slice_lookalike_alone_seen_by_provider": 0, "slice_lookalike_matched_by_value": 0, "slice_lookalike_beside_scalar_seen_by_callback": 0}
 
 
 def count_guards(guard, cases, byid):
@@ -750,6 +809,18 @@ def count_guards(guard, cases, byid):
                 guard["mixed_value_and_provider_return"] += o["style"] == "permix" and e["kind"] == "values"
                 guard["nil_lookalike_returned"] += e["kind"] == "values" and "V3" in e["vals"]
                 guard["nil_lookalike_argument_seen_by_callback"] += bool(e["cbs"]) and "V3" in o["f"]
+                look = [x for x in o["v"] if x.startswith("W")]
+                if look and e["cbs"]:
+                    fns = {x["fn"] for x in e["cbs"]}
+                    alone = len(o["v"]) == 1
+                    runlike = bool(fns & {"run"}) or ("rar" in fns and not k["rk"])
+                    guard["slice_lookalike_alone_seen_by_run_unrolled"] += alone and runlike and k["unroll"] == "true"
+                    guard["slice_lookalike_alone_seen_by_run_rolled"] += alone and runlike and k["unroll"] != "true"
+                    guard["slice_lookalike_alone_seen_by_provider"] += alone and bool(fns - {"run"}) and bool(k["rk"])
+                    guard["slice_lookalike_beside_scalar_seen_by_callback"] += not alone
+                if look and o["matched"] > 0:
+                    tail = c["ops"][[i for i, q in enumerate(c["ops"]) if q["op"] == "expect"][o["matched"] - 1]]["ms"][len(k["pk"]):]
+                    guard["slice_lookalike_matched_by_value"] += any(t["k"] != "any" for t in tail)
                 if k["vk"] != "none" and o["matched"] > 0 and o["v"]:
                     guard["variadic_elem_match" if k["unroll"] == "true" else "variadic_slice_match"] += 1
             elif o["op"] == "cleanup":
@@ -784,8 +855,11 @@ def process_batch(ctx, st, cases, tag):
     shared = []
     for lay, names in sorted(ctx.layouts.items()):
         for c in live:
-            if c["class"] in names and (c.get("random") or c.get("mode") in ("single", "sim", "multi")):
+            if c["class"] in names and (c.get("random") or c.get("mode") in ("single", "sim", "multi", "look")):
+                if lay.startswith("C") and not thorough and ctx.rng.random() >= 0.4:
+                    continue        # configuration-world mocks: a seeded part of the behaviours in the quick tier
                 shared.append(dict(c, layout=lay))
+                st["cfgworld"] += lay.startswith("C")
     allc = live + shared
     if not allc:
         return
@@ -884,11 +958,12 @@ def process_batch(ctx, st, cases, tag):
         else:
             sig = {"kind": "cleanup-mismatch", "op": "cleanup", "expected": m["expect"], "observed": got["reported"],
                    "test_had_failed": bool(o.get("failed")), **cls_sig(k)}
-        sig["layout"] = "shared-file" if c.get("layout") else "own-file"
+        sig["layout"] = ("config-world" if c["layout"].startswith("C") else "shared-file") if c.get("layout") else "own-file"
         if len(ctx.violations) > 100:
             ctx.violation(sig, {"class": k, "step": si, "note": "details recorded for the first 100 violations only"})
             continue
         detail = {"class": k, "interface": iface_src([k]), "layout": c.get("layout", "own file"),
+                  "config_world": getattr(ctx, "cfgworld_conf", None) if str(c.get("layout", "")).startswith("C") else None,
                   "shared_file_order": sorted(ctx.layouts.get(c.get("layout"), {}).values()), "history": [{x: y for x, y in q.items() if x not in ("impl",)} for q in c["ops"][:si + 1]],
                   "step": si, "contract_expects": m["expect"], "code_shaped_model_predicts": m["impl"], "real_mock_did": got,
                   "raw": per[ci][si].get("reply"), "source": "random history" if c.get("random") else "TLC-exported transition",
@@ -909,7 +984,7 @@ def run(ctx):
     pool = ThreadPoolExecutor(max_workers=12)
     # ------------------------------------------------------------ 0. the signature classes (from the spec)
     base = "ThoroughClasses" if thorough else "QuickClasses"
-    r0 = run_tlc(ctx, "classes", "TestifyMockMC", cfg_text("TestifyMock_quick.cfg", Classes="<- " + base, MaxExp="= 0", MaxCalls="= 0"), timeout=120)
+    r0 = run_tlc(ctx, "classes", "TestifyMockMC", cfg_text("TestifyMock_quick.cfg", Classes="<- " + base, MaxExp="= 0", MaxCalls="= 0"), timeout=600)
     if not r0.ok:
         raise MachineryError("TLC could not enumerate the signature classes:\n" + r0.tail())
     byid = {}
@@ -922,6 +997,14 @@ def run(ctx):
     multi_ids = sorted(set(parse_prints(r0.text, "MULTI")) & set(byid))
     if len(pair_ids) < 5 or len(multi_ids) < 5:
         raise MachineryError("no classes for the pair mode")
+    ctx.cfgpkgs = parse_prints(r0.text, "CFGPKG")
+    ctx.cfgplaces = [x for x in parse_prints(r0.text, "CFGPLACE") if x["class"] in byid]
+    inh = {(x["pkg"], x["eff"]) for x in ctx.cfgplaces if x["itd"] == "unset"}
+    if len(ctx.cfgpkgs) < 3 or len({e for _, e in inh}) < 2 or not any(x["itd"] != "unset" and x["itd"] != "true" for x in ctx.cfgplaces):
+        raise MachineryError("vacuous: the configuration world has no inherited / overridden unroll-variadic placements")
+    look_ids = sorted(set(parse_prints(r0.text, "LOOK")) & set(byid))
+    if len(look_ids) < 4 or not {"true", "false", "unset"} <= {byid[i]["unroll"] for i in look_ids}:
+        raise MachineryError("no classes for the slice look-alike mode")
 
     # ------------------------------------------------------------ 1. TLC (in the background) ...
     jobs = []
@@ -939,7 +1022,14 @@ def run(ctx):
         jobs.append(("multi", pool.submit(run_tlc_export, ctx, "multi0", "TestifyMockGen",
                                           cfg_text("TestifyMock_multi.cfg", Classes="<- GenClasses"),
                                           files={"TestifyMockGen.tla": gen_module(multi_ids)}, timeout=600)))
+        jobs.append(("look", pool.submit(run_tlc_export, ctx, "look0", "TestifyMockGen",
+                                         cfg_text("TestifyMock_look.cfg", Classes="<- GenClasses"),
+                                         files={"TestifyMockGen.tla": gen_module(look_ids)}, timeout=600)))
     else:
+        for gi, g in enumerate(split(look_ids, 2)):
+            jobs.append(("look", pool.submit(run_tlc_export, ctx, f"look{gi}", "TestifyMockGen",
+                                             cfg_text("TestifyMock_look.cfg", Classes="<- GenClasses"),
+                                             files={"TestifyMockGen.tla": gen_module(g)}, timeout=2400)))
         for gi, g in enumerate(split(ids, 4)):
             jobs.append(("single", pool.submit(run_tlc_export, ctx, f"single{gi}", "TestifyMockGen",
                                                cfg_text("TestifyMock_thorough.cfg", Classes="<- GenClasses"),
@@ -977,7 +1067,7 @@ def run(ctx):
 
     st = {"byid": byid, "drv": drv, "alive_ids": alive_ids, "thorough": thorough, "pool": pool, "guard": new_guard(),
           "modes": {}, "exported": 0, "live": 0, "shared": 0, "random": 0, "steps": 0, "consumed": 0, "rejected": 0, "drift": 0,
-          "setup_errors": 0, "nontrivial": 0, "seen_classes": set(), "selftest": None, "t_driver": 0.0, "t_tv": 0.0, "batches": 0}
+          "setup_errors": 0, "nontrivial": 0, "cfgworld": 0, "seen_classes": set(), "selftest": None, "t_driver": 0.0, "t_tv": 0.0, "batches": 0}
     only = os.environ.get("C03_JOBS")      # development aid: restrict the TLC jobs that are used
     pending = []
     for kind, fut in jobs:
@@ -998,6 +1088,8 @@ def run(ctx):
                 raise MachineryError("vacuous: spec actions never taken: " + "; ".join(z))
         cs = parse_prints(r.cases_file.read_text(), "CASE")
         r.cases_file.unlink()
+        if kind == "look" and not thorough:     # quick: a seeded half of the look-alike transitions (thorough: all)
+            cs = [c for c in cs if ctx.rng.random() < 0.5]
         st["modes"][kind] = st["modes"].get(kind, 0) + len(cs)
         st["exported"] += len(cs)
         for c in cs:
@@ -1022,6 +1114,8 @@ def run(ctx):
         raise MachineryError(f"vacuous: no behaviour exported for classes {sorted(set(byid) - st['seen_classes'])}")
     if not st["shared"] and not ctx.violations:
         raise MachineryError("no behaviour replayed on shared-file mocks")
+    if not st["cfgworld"] and not ctx.violations:
+        raise MachineryError("no behaviour replayed on configuration-world mocks")
     # keep the replay files few but the signatures distinct
     if len(ctx.violations) > 20:
         seen, keep = set(), []
@@ -1043,7 +1137,7 @@ def run(ctx):
     ctx.cov["rule"] = ("every Call/Cleanup transition TLC generated on TestifyMock.tla (one representative history each, prefixes merged) "
                        "+ seeded random histories; non-trivial = at least two operations before cleanup")
     ctx.cov.update({"signature_classes": len(classes), "classes_replayed": len(alive), "tlc_exported_transitions": st["exported"],
-                    "behaviours_replayed": st["live"], "random_histories": st["random"], "behaviours_replayed_on_shared_file_mocks": st["shared"],
+                    "behaviours_replayed": st["live"], "random_histories": st["random"], "behaviours_replayed_on_shared_file_mocks": st["shared"], "of_which_on_configuration_world_mocks": st["cfgworld"],
                     "shared_files": {lay: len(n) for lay, n in ctx.layouts.items()}, "steps_judged_by_tlc": st["steps"],
                     "trace_events_consumed": st["consumed"], "replies_rejected": st["rejected"], "exported_by_mode": st["modes"],
                     "vacuity": st["guard"], "impl_drift_steps": st["drift"], "setup_errors": st["setup_errors"], "batches": st["batches"],
@@ -1053,6 +1147,7 @@ def run(ctx):
         "small scope: per class <= 1 full-alphabet expectation x <= 2 calls (single), <= 2 plain expectations x <= 3 calls (pair); random histories <= %d ops" % max_ops,
         "the recording TestingT has the testing.TB method surface (Failed() true after Errorf/FailNow); a test that has already failed is part of the histories",
         "variadic matchers are registered by spread from one reused buffer per mock that is overwritten after every registration",
+        "slice look-alike values ([]interface{} {V1,V2} / empty / {nil} / nil) only as variadic elements of ...interface{} / ...any methods; as values they ARE the slice of their elements (testify's ObjectsAreEqual), the model identifies the two",
         "only mock.Anything and equal-value matchers; no Maybe/NotBefore/WaitUntil/After; sequential use",
         "parameter names that do not compile today (r0, tmpRet, _va, _mock, _e, ...) are C01's business and not used here"]
     return {"level": "model_checking", "exhaustive": False}
@@ -1069,9 +1164,11 @@ def replay(ctx):
     ctx.timing = {}
     # the whole class set of the recorded tier is materialised again: a shared-file behaviour depends on its neighbours
     base = "ThoroughClasses" if rec.get("tier") == "thorough" else "QuickClasses"
-    r0 = run_tlc(ctx, "classes", "TestifyMockMC", cfg_text("TestifyMock_quick.cfg", Classes="<- " + base, MaxExp="= 0", MaxCalls="= 0"), timeout=120)
+    r0 = run_tlc(ctx, "classes", "TestifyMockMC", cfg_text("TestifyMock_quick.cfg", Classes="<- " + base, MaxExp="= 0", MaxCalls="= 0"), timeout=600)
     byid = {c["id"]: c for c in parse_prints(r0.text, "CLASS")}
     byid[k["id"]] = k
+    ctx.cfgpkgs = parse_prints(r0.text, "CFGPKG")
+    ctx.cfgplaces = [x for x in parse_prints(r0.text, "CFGPLACE") if x["class"] in byid]
     ctx.mockery()
     drv, alive, _ = build_world(ctx, [byid[i] for i in sorted(byid)])
     if k["id"] not in {c["id"] for c in alive}:
